@@ -161,4 +161,64 @@ Proof.
   exists s'. split; [exact E|]. split; [apply reject_msg_props|]. split; assumption.
 Qed.
 
+(* ---- every established sub-state ------------------------------------------------------------------------------ *)
+(* enforce lets the request through and leaves (s1, e1) -- s1 may differ from s: when the request's own number
+   is ahead, enforce has sent our ResendRequest and moved to resend_request_sent.  Whatever state s1 is, other
+   than resend_request_received, the answer is e1 followed by the full plan and ends with a gap fill: a valid
+   request is never dropped (test_request_sent, resend_request_sent, logoff_sent, ... included). *)
+Theorem replay_plan_any_state : forall s seqnum m r s1 e1,
+  schema_ok sc = true -> nosoh (s_snd s1) = true -> nosoh (s_tgt s1) = true ->
+  enforce sc now seqnum m s = (inl r, s1, e1) ->
+  (s_state s1 =? st_resend_request_received) = false ->
+  s_closed s1 = false -> s_batch s1 = [] -> ready_store decode s1 ->
+  range_bad (req_begin m) (req_end m) = false ->
+  exists s' evs w a,
+    handle_resend_request sc decode now seqnum m s = (inl true, s', (e1 ++ evs ++ [EOut w])%list) /\
+    (evs ++ [EOut w])%list = out sc now decode s1 (fst (the_plan s1 m)) /\
+    parse_out w = IGap a (s_next_send s') /\
+    s_next_send s' = snd (the_plan s1 m) /\ s_state s' = st_continuous /\ st s' = st s1.
+Proof.
+  intros s seqnum m r s1 e1 SOK N1 N2 ENF ST CL BA (ASA & ATT & WF & DEC & LEN) RB.
+  destruct (sok_parts sc SOK) as (W & S34 & S43 & S52 & S122 & S49 & S56 & ADM & B36 & B123).
+  destruct (resend_plan_any sc now decode W ADM s seqnum m r s1 e1 ENF ST RB ltac:(repeat split; assumption) WF DEC LEN)
+    as (s' & E & NS & STC & STO).
+  destruct (plan_ends (st s1) (s_next_send s1) (req_begin m) (req_end m)) as (items & x & P).
+  exists s', (out sc now decode s1 items), (wire sc decode now s1 (PGap x (snd (the_plan s1 m)))), (gap_seq s1 x).
+  split; [rewrite E, P, out_app; reflexivity|]. split; [rewrite P, out_app; reflexivity|].
+  split; [rewrite (wire_gap_parse sc decode now SOK s1) by assumption; rewrite NS; reflexivity|]. auto.
+Qed.
+
+(* the one exception: a replay is already running *)
+Theorem unanswered_only_while_replaying : forall s seqnum m r s1 e1,
+  enforce sc now seqnum m s = (inl r, s1, e1) ->
+  (s_state s1 =? st_resend_request_received) = true ->
+  handle_resend_request sc decode now seqnum m s = (inl true, s1, e1).
+Proof.
+  intros s seqnum m r s1 e1 ENF ST. rewrite (handle_after_enforce sc now decode seqnum m s r s1 e1 ENF).
+  rewrite (body_busy sc now decode s1 seqnum m ST). rewrite app_nil_r. reflexivity.
+Qed.
+
+(* the request's own MsgSeqNum is above the expected one (state continuous): our ResendRequest for the gap,
+   then the replay planned with next_send + 1 *)
+Theorem replay_plan_ahead : forall s seqnum m,
+  nosoh (sc_begin sc) = true -> is_admin sc mt_sequence_reset = true -> is_admin sc mt_resend_request = true ->
+  s_state s = st_continuous ->
+  compid_check m s = (inl tt, s, []) ->
+  beq (m_type m) mt_sequence_reset = false ->
+  s_next_recv s < seqnum ->
+  s_closed s = false -> s_batch s = [] -> ready_store decode s ->
+  range_bad (req_begin m) (req_end m) = false ->
+  exists s' s1,
+    s_state s1 = st_resend_request_sent /\ s_next_send s1 = s_next_send s + 1 /\
+    handle_resend_request sc decode now seqnum m s =
+      (inl true, s',
+       (EOut (encode sc (fst (stamp sc now s (generate_resend_request sc (s_next_recv s) 0)))) ::
+        out sc now decode s1 (fst (plan (st s) (s_next_send s + 1) (req_begin m) (req_end m))))) /\
+    s_next_send s' = snd (plan (st s) (s_next_send s + 1) (req_begin m) (req_end m)) /\
+    s_state s' = st_continuous /\ st s' = st s.
+Proof.
+  intros s seqnum m W ADM ADM2 ST CC NT LT CL BA (ASA & ATT & WF & DEC & LEN) RB.
+  apply (resend_plan_ahead sc now decode W ADM); try assumption. repeat split; assumption.
+Qed.
+
 End T.
